@@ -29,9 +29,20 @@ func H_C03_Clearing() {
 	e := env.New(now)
 	nBids := nd.Pick("nBids", nd.Param("maxBids", 2)) + 1
 	nUsers := nd.Param("users", 2)
+	// narrow variant (exactBids=k): exactly k quantity bids of one bidder at strictly decreasing prices —
+	// the shape in which a per-bidder cap is consumed over several bids
+	narrow := nd.Param("exactBids", 0)
+	if narrow > 0 {
+		nBids, nUsers = narrow, 1
+	}
 	sp := aSpec{id: 0, batch: true, status: types.AuctionStatusStarted, auctioneer: 0, nBids: nBids,
-		nSched: 0, nEnd: 1, nUsers: nUsers, allowAll: true, hasMatchedLen: false}
+		nSched: 0, nEnd: 1, nUsers: nUsers, allowAll: true, hasMatchedLen: false, allMany: narrow > 0, flagsFalse: narrow > 0}
 	st := buildAuction(e, "a.", sp)
+	if narrow > 0 {
+		for i := 1; i < nBids; i++ {
+			nd.Assume(st.bids[i].Price.LT(st.bids[i-1].Price))
+		}
+	}
 	setAuctionSeq(e, 2)
 	offered := nd.ZInt(st.offered())
 	// the same accounts may be on the allow-list of a later auction with other caps: they must not matter here
